@@ -333,7 +333,11 @@ def canon(e):
                 terms.extend(x[1:] if x[0] == 'MIN' else [x])
             # min(.., u32::MAX) of a limit is the saturating narrowing, written try_from().unwrap_or(MAX) or
             # min(limit, u32::MAX as usize) as u32 alike
-            terms = [('PLACE', t[1]) if t[0] == 'SAT32' else t for t in terms]
+            # (not so next to a total over several buffers: `total_len()` is a usize sum that may exceed u32::MAX, clamping
+            # it to the 32-bit saturated limit under-reports what as_iovecs exposes)
+            wide = any(x[0] == 'call' and x[1] == 'io::traits::BufSlice::total_len' for a_ in e[2] for x in subexprs(a_))
+            if not wide:
+                terms = [('PLACE', t[1]) if t[0] == 'SAT32' else t for t in terms]
             bounded = any(t[0] in ('LEN', 'SPARE') for t in terms)
             rest = [t for t in terms if t != ('CONST', 0xFFFFFFFF)]
             if len(rest) < len(terms) and not bounded and len(rest) == 1 and rest[0][0] == 'PLACE':
@@ -596,17 +600,22 @@ def r4_guards(r, facts):
                         es = ExprBuilder(sib[0], multi='phi')
                         rets_ = [es.call(t2) for l2, t2 in sib[0].calls() if is_local(t2['dest'], 0)] + [es.rvalue(s2['rv']) for l2, s2 in sib[0].assigns() if s2['lhs']['l'] == 0 and not s2['lhs']['p']]
 
-                        def budget(c_):
+                        def budget(c_, wide=False):
                             terms = list(c_[1:]) if c_[0] == 'MIN' else [c_]
                             out_ = set()
                             for t_ in terms:
                                 if t_[0] in ('LEN', 'SPARE'):
                                     continue
+                                if wide and t_[0] in ('SAT32', 'SAT32E'):
+                                    # total_len() is a usize: a limit saturated to 32 bits is a different (smaller) budget
+                                    # than the full limit the iovecs are cut to
+                                    out_.add(repr(('SAT32', t_[1])))
+                                    continue
                                 out_.add(repr(('PLACE', t_[1]) if t_[0] == 'SAT32' else (t_[1] if t_[0] == 'SAT32E' else t_)))
                             return out_
                         b_sib = set()
                         for e_ in rets_:
-                            b_sib |= budget(canon(e_))
+                            b_sib |= budget(canon(e_), wide=(sib_name == 'total_len'))
                         b_here = budget(canon(ExprBuilder(g, multi='phi').rvalue(g.at(left0[0])['rv'])))
                         r.inst('LimitedBuf::%s budget %s vs %s budget %s' % (meth, sorted(b_here), sib_name, sorted(b_sib)), g.where(left0[0]))
                         r.require(b_here == b_sib, 'LimitedBuf::%s/budget' % meth, 'the iovecs are cut to %s but %s is clamped to %s: the two views of the remaining limit differ (after a partial transfer more is offered to the kernel than the wrapper reports as available)' % (sorted(b_here), sib_name, sorted(b_sib)), g.where(left0[0]))
